@@ -34,6 +34,10 @@ def run(ck):
     model, minfo = vf.build_model()
     if not model: raise RuntimeError(minfo)
     cfgs = nc.configs(ck.tier)
+    if not ck.proof["ok"] or not ck.quick():
+        # degrees above 1024 take the table path of permut.hpp (permut_compute); the quick tier relies on C02_source_permut for it and
+        # runs the implementation there only to look for a failing input when an obligation no longer checks
+        cfgs = cfgs + [(32, 2048, 1), (32, 4096, 1), (64, 2048, 1)]
     exes, errs = nc.build(cfgs, BACK)
     for b, ch, err in errs:
         ck.violation("harness does not compile for back end %s configs %s" % (b, ch), {"backend": b, "compiler_output": err[-3000:]}, tag="build_" + b, no_input=True)
